@@ -1190,9 +1190,6 @@ impl Server {
         should_send_parse_to_server: bool,
     ) -> Result<(), Error> {
         if !self.has_prepared_statement(&parse.name) {
-            self.registering_prepared_statement
-                .push_back(parse.name.clone());
-
             let mut bytes = BytesMut::new();
 
             // If we evict something, we need to close it on the server
@@ -1213,6 +1210,15 @@ impl Server {
             if !bytes.is_empty() {
                 bytes.extend_from_slice(&sync());
 
+                // The statements registered for the batch the client is still assembling
+                // have not been sent yet: this exchange does not answer for them.
+                let not_sent_yet = std::mem::take(&mut self.registering_prepared_statement);
+
+                if should_send_parse_to_server {
+                    self.registering_prepared_statement
+                        .push_back(parse.name.clone());
+                }
+
                 self.send(&bytes).await?;
 
                 loop {
@@ -1222,6 +1228,14 @@ impl Server {
                         break;
                     }
                 }
+
+                self.registering_prepared_statement = not_sent_yet;
+            }
+
+            // The client's own Parse follows with the rest of its batch.
+            if !should_send_parse_to_server {
+                self.registering_prepared_statement
+                    .push_back(parse.name.clone());
             }
         };
 
